@@ -462,10 +462,15 @@ func schemaMain(args []string) {
 				twoByTwo = true
 			}
 		}
+		if twoByTwo && len(chosen) > 1200 {
+			// (this universe is run under both name styles: a smaller sample keeps the run within minutes)
+			chosen = chosen[:1200]
+			stt.Exhaustive = false
+		}
 		for si, s := range chosen {
 			stt.States++
 			builds := []string{"hist"}
-			if *lit {
+			if *lit && !twoByTwo {
 				builds = append(builds, "lit")
 			}
 			styles := []int{si % 2}
